@@ -1,9 +1,10 @@
 """C10 -- iCalendar parsing is independent of how the bytes arrive; no byte sequence crashes the parser.
 Oracle: equality of the canonical instruction dump with the single-chunk dump; ASan/UBSan; CPU budget."""
 import json
+import re
 
-from .. import build, calgen
-from ..common import (Run, Part, CaseServer, HarnessCrash, pmap, rng_for, build_or_die, NCPU)
+from .. import build, calgen, xxh
+from ..common import (Run, Part, CaseServer, HarnessCrash, pmap, rng_for, build_or_die, NCPU, unesc)
 
 PROP = "C10"
 OPTS = "fields=1 n=3 budget=10000"
@@ -11,9 +12,19 @@ GEN = {"cheap_rules": True}
 INTERESTING = set(b"\r\n \t\\:;,=")
 
 
+_AUTO = re.compile(r"uid=echse/autouid-0x([0-9a-f]{8})@echse")
+_UID = re.compile(r"uid=(\S+)")
+
+
+def _key_uid(m):
+    # a task is identified by the 32-bit hash of its UID; a generated UID is printed as that hash, unless a string with the
+    # same hash has been interned by then - which depends on what has been read so far, not on what the task is
+    return "uid=#%08x" % xxh.xxh32(unesc(m.group(1)))
+
+
 def dump(srv, data, chunking):
     lines = srv.case(OPTS + (" " + chunking if chunking else ""), data)
-    return [l for l in lines]
+    return [_UID.sub(_key_uid, _AUTO.sub(lambda m: "uid=#" + m.group(1), l)) for l in lines]
 
 
 def cut_positions(data, rng, tier):
